@@ -287,6 +287,12 @@ fn gen_delegation_method<'s>(
     });
     let core = &generic_idents.crate_idents.core;
 
+    // `self` is hygienic: the forwarded `self` has to carry the span of the receiver it refers to
+    let self_token = match fn_sig.inputs.first() {
+        Some(syn::FnArg::Receiver(receiver)) => receiver.self_token,
+        _ => syn::token::SelfValue::default(),
+    };
+
     match (&attr.impl_trait, &attr.delegation_kind) {
         (Some(ImplTrait(_, impl_trait_ident)), Some(SpanOpt(Delegate::ByTrait(_), _))) => {
             DelegatingMethod {
@@ -294,7 +300,7 @@ fn gen_delegation_method<'s>(
                 sig: fn_sig.clone(),
                 call: quote! {
                     // TODO: pass additional generic arguments(?)
-                    <#impl_t::Target as #impl_trait_ident<#impl_t>>::#fn_ident(self, #(#arguments),*)
+                    <#impl_t::Target as #impl_trait_ident<#impl_t>>::#fn_ident(#self_token, #(#arguments),*)
                 },
             }
         }
@@ -310,14 +316,14 @@ fn gen_delegation_method<'s>(
             let call = match ref_delegate {
                 RefDelegate::AsRef => {
                     quote! {
-                        <#impl_t as ::#core::convert::AsRef<dyn #impl_trait_ident<#impl_t> #plus_sync>>::as_ref(&*self)
-                            .#fn_ident(self, #(#arguments),*)
+                        <#impl_t as ::#core::convert::AsRef<dyn #impl_trait_ident<#impl_t> #plus_sync>>::as_ref(&*#self_token)
+                            .#fn_ident(#self_token, #(#arguments),*)
                     }
                 }
                 RefDelegate::Borrow => {
                     quote! {
-                        <#impl_t as ::#core::borrow::Borrow<dyn #impl_trait_ident<#impl_t> #plus_sync>>::borrow(&*self)
-                            .#fn_ident(self, #(#arguments),*)
+                        <#impl_t as ::#core::borrow::Borrow<dyn #impl_trait_ident<#impl_t> #plus_sync>>::borrow(&*#self_token)
+                            .#fn_ident(#self_token, #(#arguments),*)
                     }
                 }
             };
@@ -332,21 +338,21 @@ fn gen_delegation_method<'s>(
             trait_fn,
             sig: fn_sig.clone(),
             call: quote! {
-                self.as_ref().as_ref().#fn_ident(#(#arguments),*)
+                #self_token.as_ref().as_ref().#fn_ident(#(#arguments),*)
             },
         },
         (None, Some(SpanOpt(Delegate::ByRef(RefDelegate::Borrow), _))) => DelegatingMethod {
             trait_fn,
             sig: fn_sig.clone(),
             call: quote! {
-                self.as_ref().borrow().#fn_ident(#(#arguments),*)
+                #self_token.as_ref().borrow().#fn_ident(#(#arguments),*)
             },
         },
         _ => DelegatingMethod {
             trait_fn,
             sig: fn_sig.clone(),
             call: quote! {
-                self.as_ref().#fn_ident(#(#arguments),*)
+                #self_token.as_ref().#fn_ident(#(#arguments),*)
             },
         },
     }
